@@ -137,6 +137,14 @@ bool HttpReader::try_one()
     }
     m.raw_len = total;
     m.done_at = sim::now_ns();
+    if (!requests && m.status >= 100 && m.status < 200) {
+        // an interim response (100 Continue, 103 Early Hints) has no body and is followed by the final response
+        total = body_start;
+        interim++;
+        buf.erase(0, total);
+        consumed += total;
+        return !buf.empty();
+    }
     done.push_back(std::move(m));
     buf.erase(0, total);
     consumed += total;
